@@ -22,6 +22,9 @@ func init() {
 	reg1("C02History", SetupC02History, HarnessC02History)
 	reg1("C03Snapshot", SetupC03Snapshot, HarnessC03Snapshot)
 	reg1("C04Txn", SetupC04Txn, HarnessC04Txn)
+	reg1("C05Conc", SetupC05Conc, HarnessC05Conc)
+	reg0("C13Conc", HarnessC13Conc)
+	reg1("C12Conc", SetupC12Conc, HarnessC12Conc)
 	reg1("C06Parked", SetupC06Parked, HarnessC06Parked)
 	reg1("C07Pair", SetupC07Pair, HarnessC07Pair)
 	reg1("C08Tsr", SetupC08Tsr, HarnessC08Tsr)
